@@ -15,9 +15,9 @@ Reply kinds K (first line of stdout is what halmos dispatches on):
   unsat_rc1     "unsat" + `(error "... model is not available")`, exit 1   (what z3 does on halmos' queries)
   unknown       "unknown", exit 0
   timeout       never answers (sleeps until it is killed)
-  garbage       a line that is not a verdict, exit 0
+  garbage       a first line that is not a verdict (followed by a line "unsat", which must not count), exit 0
   empty         no output at all, exit 0
-  nonzero       an error message instead of a verdict, exit 3
+  nonzero       an error message instead of a verdict (then a line "unsat"), exit 3
   crash         partial output, then the process kills itself (returncode -9)
 A reply with "hold": true is not given before the release file exists (the harness creates it when the
 scheduled completion point of that query is reached); a held process that is never released is killed
@@ -122,11 +122,12 @@ def main(argv) -> int:
         time.sleep(float(scen.get("timeout_sleep_s", 600)))
         out = "unknown\n"
     elif kind == "garbage":
-        out = "satisfiable? who knows\n(model)\n"
+        # (the first line is what counts: an answer word further down does not make this a verdict)
+        out = "satisfiable? who knows\nunsat\n(model)\n"
     elif kind == "empty":
         out = ""
     elif kind == "nonzero":
-        out = '(error "stub: out of memory")\n'
+        out = '(error "stub: out of memory")\nunsat\n'
         sys.stderr.write("stub: fatal error\n")
         rc = 3
     elif kind == "crash":
